@@ -424,7 +424,7 @@ func execute(sc Scenario, rng *rand.Rand) (rec, error) {
 		}
 		for k := 0; k < 4; k++ {
 			subj := []string{"call.test.probe.m", "auth.test.probe.m", "access.test.probe", "get.test.probe"}[k]
-			conn.Deliver(subj, fmt.Sprintf("inbox.pollute%d", k), []byte(polluters[k%2]))
+			conn.Deliver(subj, fmt.Sprintf("inbox.pollute%d", k), []byte(polluters[(k+1)%2])) // (the last one is the mistyped one)
 			select {
 			case <-doneCh:
 			case <-time.After(2 * time.Second):
